@@ -34,11 +34,11 @@ INCONCLUSIVE_BUDGET = 0.03
 def plan(tier):
     if tier == 'thorough':
         return {'shards': 16, 'timeout_s': 1700}
-    return {'shards': 4, 'timeout_s': 280}
+    return {'shards': 8, 'timeout_s': 280}
 
 
 def n_cases(tier):
-    return 3000 if tier == 'thorough' else 140
+    return 3000 if tier == 'thorough' else 400
 
 
 DELIMS = ['\n', '\n', ',', '||', 'ab', '\r\n', 'é|']
